@@ -4,5 +4,13 @@ set -e
 cd "$(dirname "$0")"
 export CARGO_NET_OFFLINE=true
 ./harness/shims/check_dashmap_vendor.sh
+# the corpora are generated deterministically (and committed); regenerate so that they cannot drift from their generators
+python3 gen/gen_corpus.py
+python3 gen/gen_shapes.py
+python3 gen/gen_attrs.py
+python3 gen/gen_invalid.py
 cd harness
 cargo build --release --offline 2>&1 | tail -3
+# dependencies of the compile-fail corpus in check mode (its own errors are expected)
+cargo check --offline -p invalid >/dev/null 2>&1 || true
+test -x target/release/engine
